@@ -143,8 +143,9 @@ theorem extendedWindow_bounds (reads : List ReadSpan) : ∀ (w : Iv), 1 ≤ w.1 
     answers the canonical test exactly as a look-up on the whole chromosome does, on either strand. -/
 theorem loaded_flag_for_observed_introns (chr : Seq) (hdr : Iv) (reads : List ReadSpan) (st : Strand)
     (hok : ∀ r ∈ reads, ReadOk r) (introns : List Iv)
-    (hobs : ∀ it ∈ introns, ∃ r ∈ reads, ∃ ex, (ex = r.exons ∨ ex = r.correctedExons) ∧ it ∈ junctionsFromBlocks ex) :
-    pureAnswer (loadRegion chr hdr reads).1 introns st = pureAnswer ⟨chr, 1⟩ introns st := by
+    (hobs : ∀ it ∈ introns, ∃ r ∈ reads, ∃ ex, (ex = r.exons ∨ ex = r.correctedExons) ∧ it ∈ junctionsFromBlocks ex)
+    (flank : Int := 0) (hfl : 0 ≤ flank := by decide) :
+    pureAnswer (loadRegion chr hdr reads flank).1 introns st = pureAnswer ⟨chr, 1⟩ introns st := by
   have hw0 : (1 : Int) ≤ (max 1 hdr.1, hdr.2).1 := by simp only; omega
   have hmono := extendedWindow_mono reads (max 1 hdr.1, hdr.2)
   have hbnd := extendedWindow_bounds reads (max 1 hdr.1, hdr.2) hw0 hok
@@ -168,14 +169,11 @@ theorem loaded_flag_for_observed_introns (chr : Seq) (hdr : Iv) (reads : List Re
       have hcov := extended_window_covers reads (max 1 hdr.1, hdr.2) r hr ex hex a l hf hl
       have hj := junctions_inside ex hsdwf.1 hsdwf.2 a l hf hl it hit
       omega
-  unfold loadRegion
-  simp only
-  split
-  · exact (flag_independent_of_region chr _ _ introns st hbnd hin).1
-  · rename_i hnot
-    -- nothing reaches beyond the header window: it is the extended window
-    have e1 : (extendedWindow (max 1 hdr.1, hdr.2) reads).1 = max 1 hdr.1 := by simp only at hmono; omega
-    have e2 : (extendedWindow (max 1 hdr.1, hdr.2) reads).2 = hdr.2 := by simp only at hmono; omega
+  -- the header window, when it is kept: nothing reaches beyond it, it is the extended window
+  have hdrCase : (extendedWindow (max 1 hdr.1, hdr.2) reads).1 = max 1 hdr.1 →
+      (extendedWindow (max 1 hdr.1, hdr.2) reads).2 = hdr.2 →
+      pureAnswer (setReferenceSequence chr hdr.1 hdr.2).1 introns st = pureAnswer ⟨chr, 1⟩ introns st := by
+    intro e1 e2
     by_cases hs : hdr.1 ≤ 1
     · rw [region_start_clamped chr hdr.1 hdr.2 hs]
       refine (flag_independent_of_region chr 1 hdr.2 introns st (by omega) ?_).1
@@ -188,14 +186,42 @@ theorem loaded_flag_for_observed_introns (chr : Seq) (hdr : Iv) (reads : List Re
       have := hin it hit
       rw [e1, e2] at this
       omega
+  unfold loadRegion
+  simp only
+  split
+  · -- a region without kept reads: no intron is observed
+    rename_i hemp
+    have hnil : reads = [] := by simpa using hemp
+    have hin0 : introns = [] := by
+      apply List.eq_nil_iff_forall_not_mem.mpr
+      intro it hit
+      obtain ⟨r, hr, _⟩ := hobs it hit
+      rw [hnil] at hr; cases hr
+    subst hin0
+    simp [pureAnswer, pureAll]
+  · split
+    · -- reloaded: the extended window widened by `flank` on either side (start clamped at 1 by the slice)
+      by_cases hs : (extendedWindow (max 1 hdr.1, hdr.2) reads).1 - flank ≤ 1
+      · rw [region_start_clamped chr _ _ hs]
+        refine (flag_independent_of_region chr 1 _ introns st (by omega) ?_).1
+        intro it hit
+        have := hin it hit
+        omega
+      · refine (flag_independent_of_region chr _ _ introns st (by omega) ?_).1
+        intro it hit
+        have := hin it hit
+        omega
+    · rename_i hnot
+      exact hdrCase (by simp only at hmono; omega) (by simp only at hmono; omega)
 
 /-- **loaded_flag_is_chromosome_flag**: the case "the introns of one kept read" (raw or corrected alignment) — the
     `Canonical=` field of every read line of the second pass; no hypothesis on the header window -/
 theorem loaded_flag_is_chromosome_flag (chr : Seq) (hdr : Iv) (reads : List ReadSpan) (st : Strand)
-    (hok : ∀ r ∈ reads, ReadOk r) :
+    (hok : ∀ r ∈ reads, ReadOk r) (flank : Int := 0) (hfl : 0 ≤ flank := by decide) :
     ∀ r ∈ reads, ∀ ex, (ex = r.exons ∨ ex = r.correctedExons) →
-      pureAnswer (loadRegion chr hdr reads).1 (junctionsFromBlocks ex) st = pureAnswer ⟨chr, 1⟩ (junctionsFromBlocks ex) st :=
-  fun r hr ex hex => loaded_flag_for_observed_introns chr hdr reads st hok _ (fun _ hit => ⟨r, hr, ex, hex, hit⟩)
+      pureAnswer (loadRegion chr hdr reads flank).1 (junctionsFromBlocks ex) st =
+        pureAnswer ⟨chr, 1⟩ (junctionsFromBlocks ex) st :=
+  fun r hr ex hex => loaded_flag_for_observed_introns chr hdr reads st hok _ (fun _ hit => ⟨r, hr, ex, hex, hit⟩) flank hfl
 
 /-! ### the original behaviour: header window = gene span -/
 
@@ -235,6 +261,11 @@ example : ∀ it ∈ [((5, 14) : Iv)], ∃ r ∈ [exRead, { exons := [(16, 18)],
 example : ((12, 1000) : Iv).2 > witnessSeq.length ∧
     pureAnswer (loadRegion witnessSeq (12, 1000) [exRead]).1 (junctionsFromBlocks exRead.exons) .plus = true ∧
     (loadRegion witnessSeq (12, 1000) [exRead]).1.refRegion = witnessSeq := by decide
+
+-- with `--sqanti_output` (flank 20) the same region is reloaded 20 bases wider on either side (start clamped at base 1)
+example : (loadRegion witnessSeq (12, 18) [exRead] 20).1.start = 1 ∧
+    (loadRegion witnessSeq (12, 18) [exRead] 20).1.refRegion = witnessSeq ∧
+    pureAnswer (loadRegion witnessSeq (12, 18) [exRead] 20).1 (junctionsFromBlocks exRead.exons) .plus = true := by decide
 
 -- a region whose reads stay inside the header window keeps that window (no reload)
 example : (loadRegion witnessSeq (3, 16) [{ exons := [(4, 4), (15, 16)], correctedExons := [] }]).1.start = 3 := by decide
